@@ -956,6 +956,192 @@ theorem setPeerMaj_majmono (s : St) (r t src v : Nat) : MajMono s (setPeerMaj s 
     simp only [ht, if_true, setPeerMaj_maj]
     simpa [St.pvs, e] using hx
 
+/-! ### the tables grow only by the vote that is the input of the step -/
+
+theorem BV_add_who (bv : BV) (i p j : Nat) (h : j ∈ (bv.add i p).who) : j ∈ bv.who ∨ j = i := by
+  unfold BV.add at h
+  split at h
+  · exact Or.inl h
+  · rcases List.mem_cons.1 h with e | h'
+    · exact Or.inr e
+    · exact Or.inl h'
+
+theorem tally_who (s : VSet) (total i p : Nat) (v : Value) (bv : BV) (hlk : alookup s.byBlock v = some bv ∨ bv.who = [])
+    (v' : Value) (bv' : BV) (j : Nat) (h : alookup (s.tally total i p v bv).byBlock v' = some bv') (hj : j ∈ bv'.who) :
+    (∃ bv0, alookup s.byBlock v' = some bv0 ∧ j ∈ bv0.who) ∨ (v' = v ∧ j = i) := by
+  have hb : (s.tally total i p v bv).byBlock = aset s.byBlock v (bv.add i p) := by
+    unfold VSet.tally; simp only; split <;> rfl
+  rw [hb] at h
+  by_cases e : v' = v
+  · subst e
+    rw [alookup_aset_same] at h; cases h
+    rcases BV_add_who bv i p j hj with h1 | h1
+    · rcases hlk with hlk | hlk
+      · exact Or.inl ⟨bv, hlk, h1⟩
+      · rw [hlk] at h1; cases h1
+    · exact Or.inr ⟨rfl, h1⟩
+  · rw [alookup_aset_other _ _ _ _ e] at h
+    exact Or.inl ⟨bv', h, hj⟩
+
+theorem VSet_add_who (s : VSet) (n total i p : Nat) (v : Value) (ok : Bool) (v' : Value) (bv' : BV) (j : Nat)
+    (h : alookup (s.add n total i p v ok).1.byBlock v' = some bv') (hj : j ∈ bv'.who) :
+    (∃ bv0, alookup s.byBlock v' = some bv0 ∧ j ∈ bv0.who) ∨ (v' = v ∧ j = i ∧ ok = true) := by
+  unfold VSet.add at h
+  split at h
+  · exact Or.inl ⟨bv', h, hj⟩
+  split at h
+  · exact Or.inl ⟨bv', h, hj⟩
+  split at h
+  · exact Or.inl ⟨bv', h, hj⟩
+  rename_i hok
+  have hok' : ok = true := by simpa using hok
+  have lift : ∀ s1 : VSet, s1.byBlock = s.byBlock →
+      ((∃ bv0, alookup s1.byBlock v' = some bv0 ∧ j ∈ bv0.who) ∨ (v' = v ∧ j = i)) →
+      (∃ bv0, alookup s.byBlock v' = some bv0 ∧ j ∈ bv0.who) ∨ (v' = v ∧ j = i ∧ ok = true) := by
+    intro s1 e hh
+    rcases hh with ⟨b0, h0, h1⟩ | ⟨h0, h1⟩
+    · rw [e] at h0; exact Or.inl ⟨b0, h0, h1⟩
+    · exact Or.inr ⟨h0, h1, hok'⟩
+  unfold VSet.addVerified at h
+  split at h
+  · simp only at h
+    have e1 : (if s.maj23 = some v then { s with votes := aset s.votes i v } else s).byBlock = s.byBlock := by split <;> rfl
+    generalize (if s.maj23 = some v then { s with votes := aset s.votes i v } else s) = s1 at h e1
+    split at h
+    · rename_i bv hb
+      split at h
+      · exact lift s1 e1 (tally_who s1 total i p v bv (Or.inl hb) v' bv' j h hj)
+      · rw [e1] at h; exact Or.inl ⟨bv', h, hj⟩
+    · rw [e1] at h; exact Or.inl ⟨bv', h, hj⟩
+  · simp only at h
+    split at h
+    · rename_i bv hb
+      exact lift { s with votes := aset s.votes i v, sum := s.sum + p } rfl
+        (tally_who { s with votes := aset s.votes i v, sum := s.sum + p } total i p v bv (Or.inl hb) v' bv' j h hj)
+    · exact lift { s with votes := aset s.votes i v, sum := s.sum + p } rfl
+        (tally_who { s with votes := aset s.votes i v, sum := s.sum + p } total i p v { peerMaj := false, who := [], sum := 0 }
+          (Or.inr rfl) v' bv' j h hj)
+
+theorem setPeerMaj_who (s : VSet) (peer : Nat) (v : Value) (v' : Value) (bv' : BV) (j : Nat)
+    (h : alookup (s.setPeerMaj peer v).byBlock v' = some bv') (hj : j ∈ bv'.who) :
+    ∃ bv0, alookup s.byBlock v' = some bv0 ∧ j ∈ bv0.who := by
+  unfold VSet.setPeerMaj at h
+  split at h
+  · exact ⟨bv', h, hj⟩
+  simp only at h
+  split at h
+  · rename_i bv hb
+    split at h
+    · exact ⟨bv', h, hj⟩
+    · simp only at h
+      by_cases e : v' = v
+      · subst e; rw [alookup_aset_same] at h; cases h; exact ⟨bv, hb, hj⟩
+      · rw [alookup_aset_other _ _ _ _ e] at h; exact ⟨bv', h, hj⟩
+  · simp only at h
+    by_cases e : v' = v
+    · subst e; rw [alookup_aset_same] at h; cases h; cases hj
+    · rw [alookup_aset_other _ _ _ _ e] at h; exact ⟨bv', h, hj⟩
+
+/-- the vote set of type `t` at round `r` -/
+def vsOf (s : St) (t r : Nat) : VSet := if t = tPrevote then s.pvs r else s.pcs r
+
+/-- every voter recorded in `a` was recorded in `s` already, or is the acceptable vote that is the input `i` (a vote for the node's
+height): the node records a vote only when it handles it -/
+def Grow (i : In) (s a : St) : Prop :=
+  ∀ t r v bv j, (t = tPrevote ∨ t = tPrecommit) → alookup (vsOf a t r).byBlock v = some bv → j ∈ bv.who →
+    (∃ bv0, alookup (vsOf s t r).byBlock v = some bv0 ∧ j ∈ bv0.who) ∨ (∃ tot src, i = .vote t s.height r j v tot src true)
+
+theorem Grow_of_rv {i : In} {s a : St} (hr : ∀ q, a.rv q = s.rv q) : Grow i s a := by
+  intro t r v bv j _ h hj
+  left
+  refine ⟨bv, ?_, hj⟩
+  simpa [vsOf, St.pvs, St.pcs, hr r] using h
+
+theorem Grow_rvs {i : In} {s a : St} (hr : a.rvs = s.rvs) : Grow i s a :=
+  Grow_of_rv (fun q => by simp [St.rv, hr])
+
+/-- growth composed with a frame step on either side -/
+theorem Grow_frame {i : In} {s s1 a a1 : St} (h : Grow i s1 a1) (hs : ∀ q, s1.rv q = s.rv q) (hh : s1.height = s.height)
+    (ha : ∀ q, a.rv q = a1.rv q) : Grow i s a := by
+  intro t r v bv j ht hb hj
+  have hb' : alookup (vsOf a1 t r).byBlock v = some bv := by simpa [vsOf, St.pvs, St.pcs, ha r] using hb
+  rcases h t r v bv j ht hb' hj with ⟨b0, h0, h1⟩ | ⟨tot, src, e⟩
+  · exact Or.inl ⟨b0, by simpa [vsOf, St.pvs, St.pcs, hs r] using h0, h1⟩
+  · exact Or.inr ⟨tot, src, by rw [← hh]; exact e⟩
+
+theorem recordVote_grow (s : St) (t r idx v src : Nat) (ok : Bool) (tot : Nat) (ht : t = tPrevote ∨ t = tPrecommit) :
+    Grow (.vote t s.height r idx v tot src ok) s (recordVote s t r idx v src ok).1 := by
+  unfold recordVote
+  split
+  · exact Grow_of_rv (fun _ => rfl)
+  rename_i s1 h1
+  have hrv1 : ∀ q, s1.rv q = s.rv q := by
+    unfold catchupRound at h1
+    split at h1
+    · cases h1; intro _; rfl
+    · simp only at h1
+      split at h1
+      · cases h1; intro q; simp only [St.rv]; exact alookup_append_empty s.rvs r q
+      · cases h1
+  simp only
+  intro t' r' v' bv' j ht' hb hj
+  have hput : ∀ vs : VSet, vsOf (putVS s1 r t vs) t' r' = if r' = r ∧ t' = t then vs else vsOf s t' r' := by
+    intro vs
+    simp only [vsOf, St.pvs, St.pcs, putVS_rv]
+    by_cases e1 : r' = r
+    · subst e1
+      rcases ht with ht | ht <;> rcases ht' with ht' | ht' <;> subst ht <;> subst ht' <;>
+        simp [tPrecommit, tPrevote, hrv1 r']
+    · simp [e1, hrv1 r']
+  rw [hput] at hb
+  split at hb
+  · rename_i hsame
+    obtain ⟨e1, e2⟩ := hsame
+    subst e1; subst e2
+    have hvs : (if t' = tPrevote then s1.pvs r' else s1.pcs r') = vsOf s t' r' := by
+      simp only [vsOf, St.pvs, St.pcs, hrv1 r']
+    rw [hvs] at hb
+    rcases VSet_add_who _ _ _ _ _ _ _ _ _ _ hb hj with ⟨b0, h0, hm⟩ | ⟨e1, e2, e3⟩
+    · exact Or.inl ⟨b0, h0, hm⟩
+    · subst e1; subst e2; subst e3
+      exact Or.inr ⟨tot, src, rfl⟩
+  · exact Or.inl ⟨bv', hb, hj⟩
+
+theorem setPeerMaj_grow (i : In) (s : St) (r t src v : Nat) : Grow i s (setPeerMaj s r t src v) := by
+  unfold setPeerMaj
+  split
+  · exact Grow_of_rv (fun _ => rfl)
+  rename_i ht
+  split
+  · exact Grow_of_rv (fun _ => rfl)
+  rename_i rv hrv
+  have e : s.rv r = rv := by simp [St.rv, hrv]
+  intro t' r' v' bv' j ht' hb hj
+  have hput : ∀ vs : VSet, vsOf (putVS s r t vs) t' r' = if r' = r ∧ t' = t then vs else vsOf s t' r' := by
+    intro vs
+    simp only [vsOf, St.pvs, St.pcs, putVS_rv]
+    have ht2 : t = tPrevote ∨ t = tPrecommit := by
+      by_cases h1 : t = tPrevote
+      · exact Or.inl h1
+      · by_cases h2 : t = tPrecommit
+        · exact Or.inr h2
+        · exact absurd ⟨h1, h2⟩ ht
+    by_cases e1 : r' = r
+    · subst e1
+      rcases ht2 with ht2 | ht2 <;> rcases ht' with ht' | ht' <;> subst ht2 <;> subst ht' <;>
+        simp [tPrecommit, tPrevote]
+    · simp [e1]
+  rw [hput] at hb
+  split at hb
+  · rename_i hsame
+    obtain ⟨e1, e2⟩ := hsame
+    subst e1; subst e2
+    have hvs : (if t' = tPrevote then rv.pv else rv.pc) = vsOf s t' r' := by
+      simp only [vsOf, St.pvs, St.pcs, e]
+    rw [hvs] at hb
+    exact Or.inl (setPeerMaj_who _ _ _ _ _ _ hb hj)
+  · exact Or.inl ⟨bv', hb, hj⟩
+
 /-! ## one input -/
 
 /-- the ticker fires only timeouts the node scheduled: never for a round above the current one -/
@@ -963,9 +1149,9 @@ def WellTimed (s : St) (i : In) : Prop := ∀ h r st, i = .timeout h r st → r 
 
 /-- `stepCore s i` is an internal transition (`G`) from a state `a` that has the height, round, step and LOCK of `s`, no outputs
 yet, and already the vote tables the step ends with -/
-def Spec (s s' : St) : Prop :=
+def Spec (i : In) (s s' : St) : Prop :=
   ∃ a : St, a.height = s.height ∧ a.round = s.round ∧ a.step = s.step ∧ a.lockedValue = s.lockedValue ∧
-    a.lockedRound = s.lockedRound ∧ a.out = [] ∧ a.powers = s.powers ∧ (TblOK s → TblOK a) ∧ MajMono s a ∧ G a s'
+    a.lockedRound = s.lockedRound ∧ a.out = [] ∧ a.powers = s.powers ∧ (TblOK s → TblOK a) ∧ MajMono s a ∧ Grow i s a ∧ G a s'
 
 /-- the start of every handler: outputs cleared -/
 def base (s : St) : St := { s with out := [], decided := false }
@@ -1191,97 +1377,110 @@ theorem validOnComplete_fields (s2 : St) :
   repeat' split
   all_goals simp
 
-theorem Spec_same {s x : St} (a : x.height = s.height) (b : x.round = s.round) (c : x.step = s.step)
+theorem Spec_same {i : In} {s x : St} (a : x.height = s.height) (b : x.round = s.round) (c : x.step = s.step)
     (d : x.lockedValue = s.lockedValue) (e : x.lockedRound = s.lockedRound) (f : x.out = []) (p : x.powers = s.powers)
-    (tb : TblOK s → TblOK x) (mm : MajMono s x) : Spec s x :=
-  ⟨x, a, b, c, d, e, f, p, tb, mm, G.refl x⟩
+    (tb : TblOK s → TblOK x) (mm : MajMono s x) (gr : Grow i s x) : Spec i s x :=
+  ⟨x, a, b, c, d, e, f, p, tb, mm, gr, G.refl x⟩
 
-theorem addPart_Spec (s : St) (h pv idx : Nat) (dec : Bool) (ho : s.out = []) : Spec s (addPart s h pv idx dec) := by
+theorem addPart_Spec (i : In) (s : St) (h pv idx : Nat) (dec : Bool) (ho : s.out = []) : Spec i s (addPart s h pv idx dec) := by
   unfold addPart
   split
-  · exact Spec_same rfl rfl rfl rfl rfl ho rfl (fun h => h) (MajMono_rvs rfl)
+  · exact Spec_same rfl rfl rfl rfl rfl ho rfl (fun h => h) (MajMono_rvs rfl) (Grow_rvs rfl)
   split
-  · exact Spec_same rfl rfl rfl rfl rfl ho rfl (fun h => h) (MajMono_rvs rfl)
+  · exact Spec_same rfl rfl rfl rfl rfl ho rfl (fun h => h) (MajMono_rvs rfl) (Grow_rvs rfl)
   rename_i ps _
   split
-  · exact Spec_same rfl rfl rfl rfl rfl ho rfl (fun h => h) (MajMono_rvs rfl)
+  · exact Spec_same rfl rfl rfl rfl rfl ho rfl (fun h => h) (MajMono_rvs rfl) (Grow_rvs rfl)
   split
-  · exact Spec_same rfl rfl rfl rfl rfl ho rfl (fun h => h) (MajMono_rvs rfl)
+  · exact Spec_same rfl rfl rfl rfl rfl ho rfl (fun h => h) (MajMono_rvs rfl) (Grow_rvs rfl)
   split
-  · exact Spec_same rfl rfl rfl rfl rfl ho rfl (fun h => h) (MajMono_rvs rfl)
+  · exact Spec_same rfl rfl rfl rfl rfl ho rfl (fun h => h) (MajMono_rvs rfl) (Grow_rvs rfl)
   simp only
   split
-  · exact Spec_same rfl rfl rfl rfl rfl ho rfl (fun h => h) (MajMono_rvs rfl)
+  · exact Spec_same rfl rfl rfl rfl rfl ho rfl (fun h => h) (MajMono_rvs rfl) (Grow_rvs rfl)
   split
-  · exact Spec_same rfl rfl rfl rfl rfl ho rfl (fun h => h) (MajMono_rvs rfl)
+  · exact Spec_same rfl rfl rfl rfl rfl ho rfl (fun h => h) (MajMono_rvs rfl) (Grow_rvs rfl)
   · obtain ⟨f1, f2, f3, f4, f5, f6, f7, f8⟩ := validOnComplete_fields
       { s with pbp := some { ps with got := idx :: ps.got }, pb := ps.v }
-    exact ⟨_, f1, f2, f3, f4, f5, by rw [f6]; exact ho, f7, TblOK_rvs f8 f7, MajMono_rvs f8, blockCompleted_G _ h _⟩
+    exact ⟨_, f1, f2, f3, f4, f5, by rw [f6]; exact ho, f7, TblOK_rvs f8 f7, MajMono_rvs f8, Grow_rvs f8, blockCompleted_G _ h _⟩
 
-theorem addVote_Spec (s : St) (t vh r idx v src : Nat) (ok : Bool) (ho : s.out = []) : Spec s (addVote s t vh r idx v src ok) := by
+theorem addVote_Spec (s : St) (t vh r idx v src : Nat) (ok : Bool) (tot : Nat) (ho : s.out = []) :
+    Spec (.vote t vh r idx v tot src ok) s (addVote s t vh r idx v src ok) := by
   unfold addVote
   split
-  · exact Spec_same rfl rfl rfl rfl rfl ho rfl (fun h => h) (MajMono_rvs rfl)
+  · exact Spec_same rfl rfl rfl rfl rfl ho rfl (fun h => h) (MajMono_rvs rfl) (Grow_rvs rfl)
   split
-  · exact Spec_same rfl rfl rfl rfl rfl ho rfl (fun h => h) (MajMono_rvs rfl)
+  · exact Spec_same rfl rfl rfl rfl rfl ho rfl (fun h => h) (MajMono_rvs rfl) (Grow_rvs rfl)
+  rename_i hvh'
+  have hvh : vh = s.height := by simpa using hvh'
   split
-  · exact Spec_same rfl rfl rfl rfl rfl ho rfl (fun h => h) (MajMono_rvs rfl)
+  · exact Spec_same rfl rfl rfl rfl rfl ho rfl (fun h => h) (MajMono_rvs rfl) (Grow_rvs rfl)
+  rename_i htt
+  have ht2 : t = tPrevote ∨ t = tPrecommit := by
+    by_cases h1 : t = tPrevote
+    · exact Or.inl h1
+    · by_cases h2 : t = tPrecommit
+      · exact Or.inr h2
+      · exact absurd ⟨h1, h2⟩ htt
+  have fg : Grow (.vote t vh r idx v tot src ok) s (recordVote s t r idx v src ok).1 := by
+    rw [hvh]; exact recordVote_grow s t r idx v src ok tot ht2
   simp only
   obtain ⟨f1, f2, f3, f4, f5, f6, f7⟩ := recordVote_fields s t r idx v src ok
   have ft := recordVote_tbl s t r idx v src ok
   have fm := recordVote_majmono s t r idx v src ok
   generalize (recordVote s t r idx v src ok).1 = s2 at *
   split
-  · exact Spec_same f1 f2 f3 f4 f5 (by rw [f6]; exact ho) f7 ft fm
+  · exact Spec_same f1 f2 f3 f4 f5 (by rw [f6]; exact ho) f7 ft fm fg
   split
   · -- prevote
     obtain ⟨m1, m2, m3, m4, m5, m7, m6⟩ := polkaUpdate_spec s2 r
     generalize hm : polkaUpdate s2 r (s2.pvs r) = m at *
     refine ⟨{ m with lockedValue := s2.lockedValue, lockedRound := s2.lockedRound }, by simp [m1, f1], by simp [m3, f2], by simp [m4, f3],
       by simp [f4], by simp [f5], by simp [m5, f6, ho], by simp [m7, f7],
-      fun h => TblOK_rvs (y := s2) (by simp [m2]) (by simp [m7]) (ft h), MajMono.trans fm (MajMono_rvs (by simp [m2])), ?_⟩
+      fun h => TblOK_rvs (y := s2) (by simp [m2]) (by simp [m7]) (ft h), MajMono.trans fm (MajMono_rvs (by simp [m2])),
+      Grow_frame fg (fun _ => rfl) rfl (fun q => by simp [St.rv, m2]), ?_⟩
     refine G.trans (G_lockbase (m := m) rfl rfl rfl rfl rfl rfl ?_) (onPrevote_G m r _)
     have hpv : ({ m with lockedValue := s2.lockedValue, lockedRound := s2.lockedRound } : St).pvs = s2.pvs := by
       funext q; simp [St.pvs, St.rv, m2]
     rw [hpv]
     simpa [m3] using m6
-  · exact ⟨s2, f1, f2, f3, f4, f5, by rw [f6]; exact ho, f7, ft, fm, onPrecommit_G s2 r _⟩
+  · exact ⟨s2, f1, f2, f3, f4, f5, by rw [f6]; exact ho, f7, ft, fm, fg, onPrecommit_G s2 r _⟩
 
-theorem Spec_congr {s s' x : St} (a : s'.height = s.height) (b : s'.round = s.round) (c : s'.step = s.step)
+theorem Spec_congr {i : In} {s s' x : St} (a : s'.height = s.height) (b : s'.round = s.round) (c : s'.step = s.step)
     (d : s'.lockedValue = s.lockedValue) (e : s'.lockedRound = s.lockedRound) (p : s'.powers = s.powers) (tb : TblOK s → TblOK s')
-    (mm : MajMono s s') (h : Spec s' x) : Spec s x := by
-  obtain ⟨y, h1, h2, h3, h4, h5, h6, h7, h8, h9, g⟩ := h
+    (mm : MajMono s s') (hrvs : s'.rvs = s.rvs) (h : Spec i s' x) : Spec i s x := by
+  obtain ⟨y, h1, h2, h3, h4, h5, h6, h7, h8, h9, h10, g⟩ := h
   exact ⟨y, by rw [h1, a], by rw [h2, b], by rw [h3, c], by rw [h4, d], by rw [h5, e], h6, by rw [h7, p], fun ht => h8 (tb ht),
-    MajMono.trans mm h9, g⟩
+    MajMono.trans mm h9, Grow_frame h10 (fun q => by simp [St.rv, hrvs]) a (fun _ => rfl), g⟩
 
 /-- every input: `stepCore` is an internal transition from a state with `s`'s height, round, step and lock -/
-theorem stepCore_Spec (s : St) (i : In) (ht : WellTimed s i) : Spec s (stepCore s i) := by
+theorem stepCore_Spec (s : St) (i : In) (ht : WellTimed s i) : Spec i s (stepCore s i) := by
   unfold stepCore
   simp only
   split
-  · exact Spec_same rfl rfl rfl rfl rfl rfl rfl (fun h => h) (MajMono_rvs rfl)
+  · exact Spec_same rfl rfl rfl rfl rfl rfl rfl (fun h => h) (MajMono_rvs rfl) (Grow_rvs rfl)
   cases i with
   | proposal h r pol v total signer typ =>
     simp only
     obtain ⟨l1, l2, l3, l4, l5, l6, l7, _, l9⟩ := learn_fields { s with out := [], decided := false } v total
     obtain ⟨p1, p2, p3, p4, p5, p6, p7, p8⟩ := setProposal_fields (learn { s with out := [], decided := false } v total) h r pol v total signer typ
     exact Spec_same (by rw [p1, l1]) (by rw [p2, l2]) (by rw [p3, l3]) (by rw [p4, l4]) (by rw [p5, l5]) (by rw [p6, l6]) (by rw [p7, l9])
-      (TblOK_rvs (y := s) (by rw [p8, l7]) (by rw [p7, l9])) (MajMono_rvs (by rw [p8, l7]))
+      (TblOK_rvs (y := s) (by rw [p8, l7]) (by rw [p7, l9])) (MajMono_rvs (by rw [p8, l7])) (Grow_rvs (by rw [p8, l7]))
   | part h r pv idx vOK cOK dec =>
     simp only
-    exact Spec_congr (s' := { s with out := [], decided := false, okv := aset s.okv pv (vOK, cOK) }) rfl rfl rfl rfl rfl rfl (fun h => h) (MajMono_rvs rfl)
-      (addPart_Spec _ h pv idx dec rfl)
+    exact Spec_congr (s' := { s with out := [], decided := false, okv := aset s.okv pv (vOK, cOK) }) rfl rfl rfl rfl rfl rfl (fun h => h) (MajMono_rvs rfl) rfl
+      (addPart_Spec _ _ h pv idx dec rfl)
   | vote t h r idx v tot src ok =>
     simp only
     obtain ⟨l1, l2, l3, l4, l5, l6, l7, _, l9⟩ := learn_fields { s with out := [], decided := false } v tot
-    exact Spec_congr l1 l2 l3 l4 l5 l9 (TblOK_rvs (y := s) l7 l9) (MajMono_rvs l7) (addVote_Spec _ t h r idx v src ok l6)
+    exact Spec_congr l1 l2 l3 l4 l5 l9 (TblOK_rvs (y := s) l7 l9) (MajMono_rvs l7) l7 (addVote_Spec _ t h r idx v src ok tot l6)
   | timeout h r st =>
     simp only
     have hr : r ≤ s.round := ht h r st rfl
-    exact ⟨{ s with out := [], decided := false }, rfl, rfl, rfl, rfl, rfl, rfl, rfl, fun h => h, MajMono_rvs rfl, handleTimeout_G _ h r st hr⟩
+    exact ⟨{ s with out := [], decided := false }, rfl, rfl, rfl, rfl, rfl, rfl, rfl, fun h => h, MajMono_rvs rfl, Grow_rvs rfl, handleTimeout_G _ h r st hr⟩
   | txs =>
     simp only
-    exact ⟨{ s with out := [], decided := false }, rfl, rfl, rfl, rfl, rfl, rfl, rfl, fun h => h, MajMono_rvs rfl, enterPropose_G _ _ 0 (Nat.zero_le _)⟩
+    exact ⟨{ s with out := [], decided := false }, rfl, rfl, rfl, rfl, rfl, rfl, rfl, fun h => h, MajMono_rvs rfl, Grow_rvs rfl, enterPropose_G _ _ 0 (Nat.zero_le _)⟩
   | maj23 r t src v tot =>
     simp only
     obtain ⟨l1, l2, l3, l4, l5, l6, l7, _, l9⟩ := learn_fields { s with out := [], decided := false } v tot
@@ -1289,9 +1488,10 @@ theorem stepCore_Spec (s : St) (i : In) (ht : WellTimed s i) : Spec s (stepCore 
     exact Spec_same (by rw [p1, l1]) (by rw [p2, l2]) (by rw [p3, l3]) (by rw [p4, l4]) (by rw [p5, l5]) (by rw [p6, l6]) (by rw [p7, l9])
       (fun ht => setPeerMaj_tbl _ r t src v (TblOK_rvs (y := s) l7 l9 ht))
       (MajMono.trans (MajMono_rvs l7) (setPeerMaj_majmono _ r t src v))
+      (Grow_frame (setPeerMaj_grow _ _ r t src v) (fun q => by simp [St.rv, l7]) l1 (fun _ => rfl))
 
 /-- what `Spec` means in plain terms -/
-theorem Spec_unfold {s s' : St} (hw : W s) (h : Spec s s') :
+theorem Spec_unfold {i : In} {s s' : St} (hw : W s) (h : Spec i s s') :
     W s' ∧ s'.height = s.height ∧ s'.powers = s.powers ∧ (TblOK s → TblOK s') ∧ MajMono s s' ∧ mu s ≤ mu s' ∧
     (s.lockedValue ≠ 0 → (s'.lockedValue = s.lockedValue ∧ s.lockedRound ≤ s'.lockedRound) ∨
         Released s'.pvs s.lockedValue s.lockedRound s'.round) ∧
@@ -1301,8 +1501,8 @@ theorem Spec_unfold {s s' : St} (hw : W s) (h : Spec s s') :
         (t = tPrecommit → v ≠ 0 → (s'.pvs r).maj23 = some v) ∧
         (t = tPrevote → s.lockedValue ≠ 0 → v = s.lockedValue ∨ Released s'.pvs s.lockedValue s.lockedRound r)) ∧
     (∀ h r v, Out.commit h r v ∈ s'.out → h = s.height ∧ v ≠ 0 ∧ (s'.pcs r).maj23 = some v) ∧
-    (∀ h r v, Out.vote tPrecommit h r v ∈ s'.out → v ≠ 0 → Held s'.pvs s' v r) ∧ D3C s'.pvs s'.out := by
-  obtain ⟨a, h1, h2, h3, h4, h5, h6, h7, h8, h9, g⟩ := h
+    (∀ h r v, Out.vote tPrecommit h r v ∈ s'.out → v ≠ 0 → Held s'.pvs s' v r) ∧ D3C s'.pvs s'.out ∧ Grow i s s' := by
+  obtain ⟨a, h1, h2, h3, h4, h5, h6, h7, h8, h9, h10, g⟩ := h
   have hwa : W a := by
     refine ⟨by rw [h3]; exact hw.1, fun hl => ?_⟩
     rw [h4] at hl; have := hw.2 hl; simp only [mu, h2, h3, h5] at this ⊢; exact this
@@ -1311,7 +1511,8 @@ theorem Spec_unfold {s s' : St} (hw : W s) (h : Spec s s') :
   have hpc : s'.pcs = a.pcs := pcs_eq_of_rv hrv
   have hmua : mu a = mu s := by simp [mu, h2, h3]
   have hout' : s'.out = new := by rw [hout, h6]; simp
-  refine ⟨hw', by rw [hh, h1], by rw [hpw, h7], fun ht => TblOK_of_eq hrv hpw (h8 ht), MajMono.trans h9 (MajMono_of_rv hrv), by omega, ?_, by rw [hout', ← hmua]; exact hch, ?_, ?_, ?_, by rw [hout', hpv]; exact hd3⟩
+  refine ⟨hw', by rw [hh, h1], by rw [hpw, h7], fun ht => TblOK_of_eq hrv hpw (h8 ht), MajMono.trans h9 (MajMono_of_rv hrv), by omega, ?_, by rw [hout', ← hmua]; exact hch, ?_, ?_, ?_, by rw [hout', hpv]; exact hd3,
+    Grow_frame h10 (fun _ => rfl) rfl hrv⟩
   · intro hl
     have := hlev (by rw [h4]; exact hl)
     rw [h4, h5] at this
